@@ -78,21 +78,22 @@ def _register():
 class ProbeRunner(object):
     """Wraps tasker.runner: the skedder and the fiat actors only ever call .send() on it."""
 
-    def __init__(self, tasker, inner, st, snap):
+    def __init__(self, tasker, inner, st, snap, label=None):
         self.tasker, self.inner, self.st, self.snap = tasker, inner, st, snap
+        self.label = label or tasker.name      # taskers of a second house are reported as "<house>.<name>"
 
     def send(self, control):
         st = self.st
         t = self.tasker
         if st.cap is not None and t.store.stamp >= st.cap:
             control = 3   # ABORT: past the run's tick cap every control is forced to abort so that the run ends
-        st.add(t.store.stamp, "send", t.name, control)
+        st.add(t.store.stamp, "send", self.label, control)
         try:
             status = self.inner.send(control)
         except BaseException as ex:
-            st.add(t.store.stamp, "raised", t.name, type(ex).__name__)
+            st.add(t.store.stamp, "raised", self.label, type(ex).__name__)
             raise
-        st.add(t.store.stamp, "sent", t.name, control, status, self.snap(t))
+        st.add(t.store.stamp, "sent", self.label, control, status, self.snap(t))
         return status
 
     def __next__(self):
@@ -201,6 +202,12 @@ def run_script(script, period=0.125, env_table=None, crash_rec=None, real=False,
             seen.add(id(t))
             t.runner = ProbeRunner(t, t.runner, st, snapshot)
         _wrap_fiats(house, st)
+        for other in sk.houses[1:]:      # further houses of the same skedder: their taskers are reported as "<house>.<name>"
+            for t in list(other.taskables) + list(getattr(other, "slaves", [])) + list(getattr(other, "framers", [])):
+                if id(t) in seen or not hasattr(t, "runner"):
+                    continue
+                seen.add(id(t))
+                t.runner = ProbeRunner(t, t.runner, st, snapshot, label="%s.%s" % (other.name, t.name))
         if after_build is not None:
             after_build(res)
         try:
